@@ -20,7 +20,7 @@ CHECKS = {
             "Every enumerated network (incl. the empty network, isolated species, thermal on/off) is rendered for dense/sparse/cusparse/rosenbrock4 with pattern output; CSR well-formedness, equality of stored entries across back-ends, every subscript against the declared sizes, and the pattern file are checked on each.",
             "Subscripts are compile-time constants evaluated through the rendered macros; cuSPARSE text is read, not compiled.", "DESIGN.md §2 C03"),
     "C04": ("exploration", "bounded-exhaustive enumeration of balanced networks; polynomial identity of weighted sums",
-            "All balanced reactions (<=3 reactants, <=3 products) over a by-construction species table and all pairs from a pool (electron spellings, gas/ice, ortho/para, isotopologues): element- and charge-weighted sums of the emitted ydot polynomials are identically zero; GetElementAbund text equals the count-weighted abundance sum.",
+            "All balanced reactions (<=3 reactants, <=3 products) over a by-construction species table and all pairs from a pool (electron spellings, gas/ice, ortho/para, isotopologues, dust grains in three charge states): element- and charge-weighted sums of the emitted ydot polynomials are identically zero; GetElementAbund text equals the count-weighted abundance sum.",
             "Compositions come from the table the names were built from, never from naunet's parser.", "DESIGN.md §2 C04"),
     "C05": ("exploration", "bounded-exhaustive enumeration of (format,type,alpha,beta,gamma); rendered EvalRates compiled with g++ and evaluated on a physical grid vs published laws",
             "Every (format, type/formula/code) of the gas-phase tables is reached through its own line format (own encoder -> naunet parser) and through the API, crossed with (alpha,beta,gamma) in A^3 (signed, zero, integer-valued, extreme). The rendered naunet_rates.cpp is compiled by g++ against the API shim and EvalRates is evaluated on a 36-point grid; each value must equal the published law (rel 1e-12 / same inf-nan class). Every emitted statement must be a C expression (E4, confirmed by g++).",
@@ -29,13 +29,13 @@ CHECKS = {
             "All window shapes (none, 0/0, lower/upper only, both, adjacent pieces, inexact/tiny/huge bounds) in every spelling of the 6 formats and the API; compiled EvalRates is evaluated at each bound, its neighbouring doubles, mid-points and extremes: k equals the law inside the window and exactly 0.0 outside; adjacent pieces have exactly one active member at every temperature.",
             "Window predicate as stated in the property; KROME operator spellings are read as plain bounds.", "DESIGN.md §2 C06"),
     "C07": ("exploration", "bounded-exhaustive enumeration of encoded lines and file arrangements per format; field-by-field comparison with the abstract reaction that was encoded",
-            "For each of the six formats every (reactant count, product count) layout x name classes (incl. column-filling names) x every type code, numbers^3 x index x windows are encoded by my own encoder and parsed by naunet; reactants/products (multisets), alpha/beta/gamma, window, index, type must equal the abstract reaction; markers never become species; every arrangement of <=4 items (data, blank, whitespace, KROME comment/directive lines) gives one reaction per data line in order.",
+            "For each of the six formats every (reactant count, product count) layout x name classes (incl. column-filling names) x every type code, numbers^3 x index x windows are encoded by my own encoder and parsed by naunet; reactants/products (multisets), alpha/beta/gamma, window, index, type must equal the abstract reaction; markers never become species; every arrangement of <=4 items (data, blank, whitespace, KROME comment/directive lines) gives one reaction per data line in order. KROME column layouts are data too: 8 @format directives (column orders, 1-3 R, 1-5 P, with/without idx and window columns, key case) x every (reactant, product) count x limit spellings, one directive per file and switching inside one file.",
             "Encoders follow the published column layouts (mc/ref/formats.py). UMIST NE>1 lines are judged in a separate sub-check (open known finding).", "DESIGN.md §2 C07"),
     "C08": ("exploration", "bounded-exhaustive enumeration of names printed from compositions under 4 configurations of the global symbol tables",
             "All singles, all ordered pairs (every adjacent symbol pair) and a family of triples of the configured chemical symbols x counts x ortho/para labels x surface prefixes/groups x charges are printed to names; Species(name) must give back exactly the composition, charge, phase, gas-phase counterpart, mass number, is_atom and (under replacement) the rewritten name; grain symbols with groups, electron spellings, pseudo-element affixes and foreign-character insertions (must raise) are enumerated as well. One fresh process per configuration slice.",
             "Only names whose intended tokenisation is the unique (or unique fewest-token) reading are judged; mass numbers from my own isotope table.", "DESIGN.md §2 C08"),
     "C09": ("exploration", "bounded-exhaustive enumeration of species sets over naming conventions; cross-artefact comparison",
-            "All subsets (size <=4) of a pool covering the naming conventions (charges, ortho/para, surface under two prefixes, grains with groups, excited and cyclic species, both electron spellings), entered through reactions and through required_species, x 4 back-ends: macros are a bijection onto 0..NSPECIES-1, identifiers legal and distinct, two spellings give one slot, and naunet_macros.h, constant_indexes.py, constants.py, the NetworkConfiguration summary, the render command's summary and naunet_enzo.h agree in count and order.",
+            "All subsets (size <=4) of a pool covering the naming conventions (charges, ortho/para, surface under two prefixes, grains with groups, excited and cyclic species, both electron spellings), entered through reactions and through required_species, x 4 back-ends: macros are a bijection onto 0..NSPECIES-1, identifiers legal and distinct, two spellings give one slot, and naunet_macros.h, constant_indexes.py, constants.py, the NetworkConfiguration summary, the render command's summary and naunet_enzo.h (A_ table and ENZO_NSPECIES) agree in count and order.",
             "Species identity of the reference is stated in the evidence assumptions; render-command and Enzo artefacts are checked on an index-determined slice.", "DESIGN.md §2 C09"),
     "C10": ("exploration", "exhaustive enumeration of the configuration space; g++ -fsyntax-only of every rendered translation unit against an API shim",
             "format-set x grain model x back-end x shielding tables x thermal: each configuration renders a probe network holding one reaction of every type the combination can produce (combinations refused in Python are recorded) and every src/*.cpp must pass g++ without diagnostics about undeclared or redefined names.",
@@ -56,19 +56,19 @@ CHECKS = {
             "All lists of length <=5 (quick <=4) over a pool of 8 reactions (two bases; permuted reactants, permuted products, other window, other type, unknown type) x modes default/brief/minimal/short: reported indices, reported reactions and first members equal the pairwise reference; removing the reported reactions leaves one member per class and a second call reports nothing.",
             "Lists on which the default-mode relation is not transitive (UNKNOWN type bridging two known types) are enumerated but not judged.", "DESIGN.md §2 C15"),
     "C16": ("exploration", "bounded-exhaustive enumeration of species sets; exact rational evaluation of the emitted renormalisation text and exact solve",
-            "All species sets {H} + up to 4 of 12 others (ions, isotopologues, multi-element molecules, ice, grains, electrons) x positive abundance vectors x reference ratios: InitRenorm, RenormAbundance and GetElementAbund text is read into exact polynomials, the linear system is solved over Q, and afterwards every element/H-nuclei ratio equals the reference, electrons are untouched and matching ratios give the identity; a literal division by zero or a non-C factor is a violation.",
+            "All species sets {H} + up to 4 of 12 others (ions, isotopologues, multi-element molecules, ice, grains, electrons) x positive abundance vectors x reference ratios: InitRenorm, RenormAbundance and GetElementAbund text is read into exact polynomials, the linear system is solved over Q, and afterwards every element/H-nuclei ratio equals the reference, electrons are untouched and matching ratios give the identity; a literal division by zero, a non-C factor or a subscript outside NELEMENTS/NEQUATIONS is a violation. Each set is built twice (sorted slot order; a linking reaction that moves the last-sorted species - the electron - to slot 0). A slice is compiled: the real SetReferenceAbund (opt 0 with un-normalised references, opt 1) + Renorm against the shim's LU must land on the exact solution.",
             "Exact arithmetic replaces the LU solve of SUNDIALS/uBLAS (equal up to rounding). Sets without atomic H are outside the generated Renorm (#ifdef IDX_ELEM_H).", "DESIGN.md §2 C16"),
     "C17": ("model_checking", "stateless exhaustive exploration of all interleavings of sequential client programs over the shared process-global tables, one fresh process per schedule; differential oracle against the client rendered alone",
-            "Five clients chosen to write different values into the same global tables (KIDA/default lists, UCLCHEM project through RenderCommand with replacement + binding energies, Leeds with custom lists and prefix G, KROME with directives, API-built ice network) each run a short program of atomic API calls (build; render / render twice / edit, where_species, render / CLI render); every interleaving of every pair (thorough: and triple) within the length bound is executed on the real code in a fresh process and every render must hash to the client's reference hash, which itself must agree across interpreter hash seeds and repeated renders.",
+            "Six clients chosen to write different values into the same global tables (KIDA/default lists, UCLCHEM project through RenderCommand with replacement + binding energies, Leeds with custom lists and prefix G, KROME with directives, API-built unindexed ice network with a rate modifier, KIDA with an upper-case element list and no replacement) each run a short program of atomic API calls (build; render / render twice / edit, where_species, render / CLI render); every interleaving of every pair (thorough: and triple) within the length bound is executed on the real code in a fresh process and every render must hash to the client's reference hash, which itself must agree across interpreter hash seeds, repeated renders and 'render, edit, render' vs 'edit, render'.",
             "Scheduling points are API-call boundaries (single-threaded library). No state merging, so no canonicalisation argument is needed.", "DESIGN.md §2 C17"),
     "C18": ("exploration", "bounded-exhaustive enumeration of networks of every format; write/read/write cycles compared field by field and byte by byte; export + re-render compared by compiled evaluation",
             "Every line of C07's space (5 typed formats, 200 reactions per file) is read, written in the native format, read back and written again: reactions in order with multisets, window, type, index, source tag and printed-precision coefficients must be preserved and the second cycle must be byte-identical. For every gas-phase (format,type), a KROME rate and every (entry path, dust model, process), a one-reaction project is exported and re-rendered from its own files; both EvalRates are compiled by g++ and must evaluate equal, or the re-render must raise.",
             "Refusals and non-compiling re-renders are not violations (not silent). Physical values are set identically on both sides (zeta = zeta_cr, zeta_xr = 0).", "DESIGN.md §2 C18"),
     "C19": ("fault_enumeration", "stateless depth-first enumeration of integrator outcome sequences (choice vectors with prefix replay) compiled against the rendered Solve/HandleError with a scripted mock integrator",
             "The rendered naunet.cpp (dense, sparse, odeint) is compiled with a mock integrator of y'=1, so the final state measures integrated time. Every sequence of outcomes within the pass alphabets - success, fail(flag, progress fraction) per CVode call at the offered positions of all five recovery levels, failing re-initialisation - is executed; on each: SUCCESS iff exactly dt was integrated and the last answer was a success, unrecoverable flags/failed re-init/level-5 failure give FAIL with the initial state logged, no integrator call after an unrecoverable flag, tout strictly increasing. Odeint: step counts around the budget and exceptions from the system function.",
-            "The mock reproduces the CVODE calling convention (tret = time reached, yout advanced), not its numerics. Failure positions are restricted per pass (stated in the evidence); a capped pass is reported as such. cuSPARSE Solve is not covered.", "DESIGN.md §2 C19"),
+            "The mock reproduces the CVODE calling convention (tret = time reached, yout advanced), not its numerics. Failure positions are restricted per pass (stated in the evidence); a capped pass is reported as such. The cuSPARSE Solve is compiled for the host against an emulation of the CUDA/cuSPARSE/cuSOLVER names it touches, kernels stubbed.", "DESIGN.md §2 C19"),
     "C20": ("exploration", "pairwise-exhaustive enumeration of init option values around a base configuration; field comparison of the written TOML and byte comparison of CLI vs API renderings in sibling fresh processes",
-            "Every init option alone over its value alphabet (lists with/without spaces, key:value and key=value tables, empty values, values containing the separator, prefixes, all legal and illegal solver triples) and all value pairs (quick: of the six interacting options; thorough: of all options) go through `naunet init --render`; the written naunet_config.toml must equal the requested description field by field and the rendered include/src/python trees must be byte-identical to the equivalent network rendered through the public API in a fresh process; bundled examples go through `naunet example`.",
+            "Every init option alone over its value alphabet (lists with/without spaces, key:value and key=value tables, empty values, values containing the separator, prefixes, all legal and illegal solver triples) and all value pairs (quick: of the six interacting options; thorough: of all options) go through `naunet init --render`; the written naunet_config.toml must equal the requested description field by field and the rendered include/src/python trees must be byte-identical to the equivalent network rendered through the public API in a fresh process; bundled examples go through `naunet example`. Export clause: API networks over (element lists, allowed/required species, symbols, dust model, ice species, binding/yield overrides, cooling, shielding, modifiers, solver) singly and pairwise -> Network.export -> TOML fields vs the network -> `naunet render --force` inside the exported project -> same tree (RHS/Jacobian files compared as exact polynomials per slot, everything else byte for byte).",
             "Reference reading of the option grammar is stated in the evidence. The ism example (network file not shipped) is not run.", "DESIGN.md §2 C20"),
 }
 
